@@ -589,7 +589,7 @@ def _hand_frame(version, name):
         fr = None
         try:
             cls = P5.find_class('clientbound', 'play', version, name)
-            if cls is not None:
+            if cls is not None and name in P5.HAND:
                 build, strat = P5.HAND[name]
                 vals = hypothesis.find(strat(version), lambda v: True)
                 K, p, exp, extra = build(version, vals)
@@ -597,10 +597,34 @@ def _hand_frame(version, name):
                 s_ = Sink()
                 p.write(s_)
                 fr = P5.frame_split(s_.value)
+            elif cls is not None:
+                # a definition-described class: the all-zero instance (empty
+                # arrays and strings, zero numbers)
+                p = cls()
+                p.context = P4.fresh_ctx(version)
+                for fname, t_, sp in P5.fields_of(cls, version):
+                    setattr(p, fname, P5.to_py(
+                        sp, P5.boundaries(sp, version)[0]))
+                s_ = Sink()
+                p.write(s_)
+                fr = P5.frame_split(s_.value)
         except Exception:
             fr = None
         _hand_cache[key] = fr
     return _hand_cache[key]
+
+
+# packets whose built-in reaction would end or re-code the session
+_NOT_IN_A_BURST = ('disconnect', 'set compression')
+
+
+def zero_packet_names(version):
+    """every registered clientbound play class that can sit in the middle
+    of a burst as its all-zero / minimal instance"""
+    from props import c05_roundtrip as P5
+    return [c.__name__ for c in P5.table('clientbound', 'play', version)
+            if getattr(c, 'packet_name', None) not in _NOT_IN_A_BURST and
+            _hand_frame(version, c.__name__) is not None]
 
 
 def burst_case(ctx, case):
@@ -928,6 +952,14 @@ def t_burst(ctx, n):
             burst_case(ctx, {'version': v, 'n': 8, 'compress': comp,
                              'encrypt': comp is None, 'sizes': [0, 5],
                              'plan': 'whole', 'hand': hands})
+    # every registered clientbound play packet as its all-zero instance
+    # (empty collections, empty text, zero numbers) in the middle of a burst
+    for v in (757, 755, 754, 578, 498, 404, 340, 107, 47):
+        names = zero_packet_names(v)
+        ctx.labels['burst_zero_valued_packets'] += len(names)
+        burst_case(ctx, {'version': v, 'n': len(names) + 4,
+                         'compress': [None, 64][v % 2], 'encrypt': False,
+                         'sizes': [0, 5], 'plan': 'whole', 'hand': names})
     for t in (0, 64, 256):
         for at in (0, 3):
             for enc_ in (False, True):
